@@ -66,6 +66,14 @@ def do_case(ctx, inp):
                 ctx.fail("spurious-point-in-solver-safe-model" if safe else "spurious-point-in-model-built-from-safe-grammar",
                          {"x": x, "sigma": sigma, "model": t})
                 return
+            # "negation pushes inwards to re-establish this form": when the model IS the negation (Not / negate / Imply) of
+            # the output of another operation, the leaf part of a point must make that negation true — judged by the
+            # argument's own evaluation, not by the pushed-in form
+            want = expected_by_argument(a, sigma) if safe else None
+            if want is not None and want != 1:
+                ctx.fail("point-of-the-negation-s-polyhedron-does-not-falsify-the-negated-model",
+                         {"x": x, "sigma": sigma, "model": t, "via": a["via"]})
+                return
     for sigma in all_assignments(lv):
         if ref_eval(t, sigma) == 1:
             real = o.evaluate(as_mapping(ctx.rng, dict(sigma)))
@@ -171,6 +179,18 @@ def run(ctx):
     n_models = (250 if ctx.quick else 1200) * (3 if ctx.search else 1)
     for _ in range(n_models):
         a, o, t = gen_valid(ctx.rng, ctx.quick, wide_p=0.05, empty_p=0.08)
+        if ctx.rng.random() < 0.2:
+            # the model is the OUTPUT of another operation (assume / reduce / negate / Not / Imply / a JSON, base64, pickle or
+            # deepcopy round trip, one or two of them) applied to a generated valid model
+            a, o, t = gen_derived(ctx.rng, ctx.quick, wide_p=0.0); ctx.tags["derived-model-stream"] += 1
+        do_case(ctx, {"ast": a})
+    # something was assumed about a model, then the result was negated (Not / negate / Imply over the output of assume())
+    for _ in range((80 if ctx.quick else 500) * (3 if ctx.search else 1)):
+        try:
+            a, o, t = gen_derived(ctx.rng, ctx.quick, chain_p=1.0, wide_p=0.0, int_p=0.0, bool_only=True)
+        except RuntimeError:
+            break
+        ctx.tags["negation-of-an-assumed-model-stream"] += 1
         do_case(ctx, {"ast": a})
     # a stream rich in nested negations over boolean leaves (Not / Imply / XNor of compounds, several levels)
     for _ in range(n_models):
